@@ -13,7 +13,7 @@ from . import spec as S
 
 VAL = "d42/validation/_validator.py"
 # the verdict contract is what C01 / C04 / C05 / C12 / C14 / C15 compose with: their checks re-prove it
-DEP_VERDICT = ("C02", "C01", "C04", "C05", "C12")
+DEP_VERDICT = ("C02", "C01", "C04", "C05", "C12", "C13", "C14", "C15")
 RES = "d42/validation/_validation_result.py"
 
 # -- transparent helpers (expanded from their real source at every call site) ------------------------
@@ -149,7 +149,7 @@ for _m, _cls in [("visit_none", "NoneSchema"), ("visit_bool", "BoolSchema"), ("v
                  ("visit_float", "FloatSchema"), ("visit_str", "StrSchema"),
                  ("visit_bytes", "BytesSchema"), ("visit_datetime", "DateTimeSchema"),
                  ("visit_uuid4", "UUID4Schema"), ("visit_date", "DateSchema")]:
-    contract(VAL, f"Validator.{_m}", props=("C02", "C03", "C08", "C07", "C01", "C04", "C05", "C12"), group="validator")(scalar_visit(_cls))
+    contract(VAL, f"Validator.{_m}", props=("C02", "C03", "C08", "C07", "C01", "C04", "C05", "C12", "C13", "C14", "C15"), group="validator")(scalar_visit(_cls))
 
 
 # -- loop invariants -----------------------------------------------------------------------------------
@@ -448,7 +448,7 @@ def container_visit(cls: str, visitor: str = "Validator"):
 
 for _m, _cls in [("visit_list", "ListSchema"), ("visit_dict", "DictSchema"), ("visit_any", "AnySchema"),
                  ("visit_type_alias", "TypeAliasSchema")]:
-    contract(VAL, f"Validator.{_m}", props=("C02", "C03", "C08", "C07", "C16", "C01", "C04", "C05", "C12"),
+    contract(VAL, f"Validator.{_m}", props=("C02", "C03", "C08", "C07", "C16", "C01", "C04", "C05", "C12", "C13", "C14", "C15"),
              group="validator")(container_visit(_cls))
 
 
@@ -557,11 +557,8 @@ def _schema_freeze_hook(ex, st, cls: str, ident: Any) -> None:
         return
     ct = ex.ct
     w = z3.Const("uv", Obj)
-    st.assume(S.wf(ident) == z3.And(*S.wf_def(ct, cls, ident)),
-              S.reach(ident) == z3.And(*S.reach_def(ct, cls, ident)),
-              S.conforms(ident, M.NoneV) == S.conforms_def(ct, cls, ident, M.NoneV),   # a ground instance
-              z3.ForAll([w], S.conforms(ident, w) == S.conforms_def(ct, cls, ident, w),
-                        patterns=[S.conforms(ident, w)]))
+    st.assume(S.unfold_defs(ct, cls, ident),
+              S.conforms(ident, M.NoneV) == S.conforms_def(ct, cls, ident, M.NoneV))   # a ground instance
 
 
 from pyvc.contracts import REG as _REG  # noqa: E402
